@@ -358,6 +358,7 @@ fn run(case: &Case, out: &mut Out) {
                 let mut rejected = false;
                 let mut cur: Option<usize> = None; // index in und of the message being forwarded
                 let mut guard = 0;
+                let mut unframed_bytes = 0usize;
                 'feed: for c in cs {
                     let chunk = &raw[pos..c];
                     pos = c;
@@ -408,6 +409,7 @@ fn run(case: &Case, out: &mut Out) {
                                     und[i].body = Some(und[i].body.unwrap_or(0) + n);
                                     if kawa.body_size == BodySize::Empty {
                                         und[i].body = None;
+                                        unframed_bytes += n;
                                     }
                                 }
                             }
@@ -430,6 +432,11 @@ fn run(case: &Case, out: &mut Out) {
                         break;
                     }
                 }
+                if unframed_bytes > 0 {
+                    // bytes forwarded as the "body" of a request that has neither Content-Length nor
+                    // Transfer-Encoding: a backend reads such a request as body-less (RFC 9112 6.3)
+                    out.viol("h1-unframed-body", &format!("{unframed_bytes} bytes forwarded after a request head that has neither Content-Length nor Transfer-Encoding (sozu: body of that request; a backend: the next request)"));
+                }
                 if rejected {
                     // 400: nothing of the offending message may have been written
                     continue;
@@ -443,12 +450,6 @@ fn run(case: &Case, out: &mut Out) {
                     // a request sozu still considers open. If it has no framing header at all
                     // (close-delimited request), every byte after its head is forwarded as "body"
                     // while a backend reads a request without Content-Length as body-less.
-                    if und.iter().any(|u| u.body.is_none()) {
-                        let head_end = written.windows(4).position(|w| w == b"\r\n\r\n").map(|p| p + 4).unwrap_or(written.len());
-                        if written.len() > head_end {
-                            out.viol("h1-unframed-body", &format!("{} bytes forwarded after a request head that has neither Content-Length nor Transfer-Encoding (sozu: body of request 1; a backend: the next request)", written.len() - head_end));
-                        }
-                    }
                     continue;
                 }
                 match strict_h1(&written) {
@@ -458,7 +459,7 @@ fn run(case: &Case, out: &mut Out) {
                             out.viol("h1-boundary", &format!("sozu forwards {} request(s), a strict backend reads {}", und.len(), l.len()));
                         } else {
                             for (u, r) in und.iter().zip(l.iter()) {
-                                if u.method != r.method || u.target != r.target || !u.host.eq_ignore_ascii_case(&r.host) || u.body.unwrap_or(0) != r.body.len() + chunk_overhead(r) {
+                                if !u.method.eq_ignore_ascii_case(&r.method) || u.target != r.target || !u.host.eq_ignore_ascii_case(&r.host) || u.body.unwrap_or(0) != r.body.len() + chunk_overhead(r) {
                                     out.viol("h1-differs", &format!("sozu: {} {} host={} body={:?}; strict backend: {} {} host={} body={}", s(&u.method), s(&u.target), s(&u.host), u.body, s(&r.method), s(&r.target), s(&r.host), r.body.len()));
                                 }
                             }
